@@ -177,6 +177,22 @@ CHECKS = {
         "runtime monitoring: reference + differential-DOM (hostile vs benign twin) oracle over generated pages",
         "3/C18",
     ),
+    "C19": (
+        "fault_enumeration",
+        "Runtime monitor on the real `python -m ford` process: a sitecustomize injected through PYTHONPATH installs sys.addaudithook, "
+        "logs every mutating file-system event (open for writing, mkdir, rmdir, remove, rename, link, symlink, chmod, utime, truncate, "
+        "shutil.rmtree/copyfile/copytree/move/copymode/copystat) and can raise OSError at the k-th such event (k enumerated; also the "
+        "first/second event touching each kind of output: css, js, media, page copies, sources, search index, graphs, modules.json...). "
+        "A sandbox (project, sources, pages with copy_subdir, media, css, favicon, mathjax config, bystander files, dangling and outward "
+        "symlinks) is hashed before and after each run; output_dir is placed sibling / nested / absolute / through a symlink / with .. / "
+        "inside a source dir / over stale output, given in the project file or with -o, and in four positions that contain a source "
+        "directory (must be refused before any mutating event). Oracles: snapshot outside output_dir and graph_dir unchanged; no logged "
+        "mutating event resolves outside them. Thorough tier adds strace -f on three runs (writes of dot children).",
+        "Fault = OSError(ENOSPC) raised from the audit hook before the operation happens; power-loss style partial writes are not modelled. "
+        "Creating missing parent directories of output_dir is allowed. parallel is 0 (worker processes are exercised by C12).",
+        "runtime monitoring: audit-hook event log + before/after content snapshot oracle, failpoint enumeration over file-system events",
+        "3/C19",
+    ),
     "C14": (
         "exploration",
         "Runtime monitor (metamorphic) on the real fixed-to-free converter + reader + parser: each generated program is written "
